@@ -5,14 +5,14 @@
  "properties": {"C17": "contract", "C19": "safety"},
  "mode": "harness",
  "replace_calls": {"arrayaddptr": "rec_arrayaddptr", "arrayaddbuf": "rec_arrayaddbuf", "compilecommand": "rec_compilecommand",
-                   "buildexe": "rec_buildexe", "fatal": "osm_oom"},
+                   "buildobj": "rec_buildobj", "buildexe": "rec_buildexe", "fatal": "osm_oom"},
  "kind": "bounded", "bound": "command lines 'cproc OPTION [ARGUMENT]' (argc <= 3) with one option out of the 36 spellings of the table below, argument word \"ab\", comma lists of at most 3 items; no input file, so main ends in usage() (or, for -l, in the link step)",
- "unwind": 14, "unwindset": ["strcmp.0:20", "strlen.0:20"],
+ "unwind": 14, "unwindset": ["strcmp.0:20", "strlen.0:20", "main.0:5", "main.1:4", "main.3:3"],
  "noreturn_macros": false, "stubs": ["os_model.c"], "link_repo": ["util.c"],
  "cbmc_flags": ["--no-malloc-may-fail"],
  "timeout": 200,
  "expects": ["assertion_verif"],
- "assumes": ["arrayaddptr/arrayaddbuf are replaced by recorders that log (stage, word) in call order (their append semantics: UTIL.arrayaddptr/UTIL.arrayaddbuf); compilecommand() by a stub returning a fixed string; buildexe() by a recorder that checks the inputs and stops",
+ "assumes": ["arrayaddptr/arrayaddbuf are replaced by recorders that log (stage, word) in call order (their append semantics: UTIL.arrayaddptr/UTIL.arrayaddbuf); compilecommand() by a stub returning a fixed string; buildobj()/buildexe() by recorders that check the inputs (buildexe stops)",
              "option table from cproc(1) and the C17 statement: -D/-U/-I (+ -include, -idirafter, -isystem, -iquote, -nostdinc, -std=, -P, -M*, -Wp,) to the preprocessor; -Wa, to the assembler; -L/-s/-static/-pthread/-Wl, to the linker; -l makes a library input; -g/-O/-pipe/-pedantic/-W<other> are ineffective; -c/-E/-S/-emit-qbe/-o/-x/-v/-nostdlib add no words",
              "config.h target is x86_64-* (the pinned config.h): compile gets -t x86_64-sysv, codegen gets -t amd64_sysv"]
 }
@@ -153,6 +153,13 @@ check_routing(void)
 		__CPROVER_assert(g_nlog == NPRE || (o->form != F_NONE && MISSING), "ROUTE option adds no word to any tool");
 		break;
 	}
+}
+
+/* per-input build, reached only through -l: the input is a library, nothing to build */
+void
+rec_buildobj(struct input *input, char *output)
+{
+	__CPROVER_assert(opts[g_opt].form == F_LIB && !MISSING && input->filetype == OBJ && input->lib, "BUILD reached only with the -l input");
 }
 
 /* the link step, reached only through -l: one library input */
